@@ -3,7 +3,8 @@
 (* Trace validation of recorded `ro += msg` steps (code -> spec).          *)
 (*                                                                         *)
 (* TRACE_FILE holds a JSON array of events                                 *)
-(*   [id, obj, pre, msg, post, status, warns, ser_eq]                      *)
+(*   [id, obj, k, pre, msg, post, status, warns, ser_eq, intact, cls,      *)
+(*    completed_eq]          k: "merge" | "remerge" | "reload" | "idle"    *)
 (* recorded at the return of the public call (error path included).        *)
 (* Every event is judged in TLA+ (MosJudge!Failing) against Merge(pre,msg) *)
 (* and the per-property lenses; the verdict is total (all clauses, every   *)
@@ -24,19 +25,33 @@ NoState == [root |-> <<>>, kids |-> <<>>]
 
 Init == l = 1 /\ cur = [o \in {} |-> NoState]
 
+(* per kind of recorded step: the failing clauses                          *)
+StepFailing(ev) ==
+  CASE ev.k \in {"merge", "remerge"} ->
+         Failing(ev) \o (IF ev.intact THEN <<>> ELSE <<"msg_intact">>)
+    [] ev.k = "reload" ->
+         (IF ev.status = "ok" /\ ev.post = ev.pre /\ ev.ser_eq THEN <<>> ELSE <<"reload_identity">>)
+         \o (IF ev.status = "ok" /\ ev.cls = "RunningOrder" /\ ev.completed_eq
+             THEN <<>> ELSE <<"reload_completed">>)
+    [] OTHER -> <<>>            \* "idle": only continuity is checked
+
 Judge(ev) ==
-  LET f == Failing(ev)
+  LET f == StepFailing(ev)
       cont == (ev.obj \in DOMAIN cur) => cur[ev.obj] = ev.pre
       all == f \o (IF cont THEN <<>> ELSE <<"continuity">>)
   IN all # <<>> =>
-       PrintT(<<"BAD", ToJson([at |-> l, id |-> ev.id, clauses |-> all, sig |-> Sig(ev)])>>)
+       PrintT(<<"BAD", ToJson([at |-> l, id |-> ev.id, k |-> ev.k, clauses |-> all,
+                               sig |-> IF ev.k \in {"merge", "remerge"} THEN Sig(ev) ELSE ev.k])>>)
 
 Next ==
   /\ l <= Len(Events)
   /\ LET ev == Events[l]
      IN /\ Judge(ev)
         /\ cur' = IF ev.obj = 0 THEN cur
-                  ELSE [o \in (DOMAIN cur) \cup {ev.obj} |-> IF o = ev.obj THEN ev.post ELSE cur[o]]
+                  ELSE [o \in (DOMAIN cur) \cup {ev.obj} |->
+                          IF o # ev.obj THEN cur[o]
+                          ELSE IF ev.k = "reload" THEN ev.pre    \* the live object itself is not changed by a reload
+                          ELSE ev.post]
   /\ l' = l + 1
   /\ (l = Len(Events) => PrintT(<<"JUDGED", ToString(Len(Events))>>))
 
